@@ -140,7 +140,7 @@ def gen_scenario(seed, tier="quick"):
         "restricted": swr.random() < 0.35,  # imports first, one feature at a time (keeps single defects reachable)
         "globals": swr.choice([0.0, 0.3, 0.6]),
         "shared_globals": swr.random() < 0.45,
-        "extra_imports": swr.choice([0.0, 0.0, 0.3]),
+        "extra_imports": swr.choice([0.0, 0.3, 0.5]),
         "cli": swr.random() < (0.05 if tier == "quick" else 0.07),
         "dup": swr.random() < 0.18,
         "generations": 2 if swr.random() < 0.2 else 1,
@@ -221,9 +221,11 @@ def gen_scenario(seed, tier="quick"):
                     need.add(funcs[c["f"]]["mod"])
             if f["glob"] and gmod[f["glob"]] != m:
                 need.add(gmod[f["glob"]])
+        modules[m]["extra"] = []
         for x in range(m):
             if x not in need and prng.random() < sw["extra_imports"]:
                 need.add(x)
+                modules[m]["extra"].append(x)
         imps = sorted(need)
         prng.shuffle(imps)
         modules[m]["imports"] = imps
@@ -271,6 +273,9 @@ def gen_scenario(seed, tier="quick"):
             # a module is compiled again with changed bodies (same signatures)
             # after its importers were compiled; the link must see the latest one
             m = rng.choice([x for x in range(nm)])
+            with_extra = [x for x in range(nm) if modules[x].get("extra")]
+            if with_extra and rng.random() < 0.6:
+                m = rng.choice(with_extra)  # (an odd variant number drops one of its unused imports)
             recompile_step = {"op": "compile", "gen": gno, "mod": m, "how": "inproc", "hs": 0, "variant": rng.randint(1, 40)}
             if rng.random() < 0.5:
                 steps.append(recompile_step)
